@@ -26,6 +26,9 @@ def _fam(th):
         _e("c13_star", "HttpStateData::haveParsedReplyHeaders() on a reply with Vary '*' | 'x-v, *' | '*, x-v' | two lines 'x-v','*' | 'x-v' b '*' | '*' b 'x-v'" + f("", " | b '*' b") +
            " (b any byte but NUL, CR, LF), status in {200,203,300,301,410,404}, no Cache-Control/Expires, to a request with X-V absent or 'q'; then a later request (X-V absent or 'q') "
            "0..1200 s later through varyEvaluateMatch() and refreshCheckHTTP()", ("star-stored", "star-private", "no-star")),
+        dict(name="c13_known_empty_registered", known=True, reach=[], max_samples=0, sample_every=0,
+             bounds="KNOWN FINDING C13-empty-registered-header only: Vary 'User-Agent'; User-Agent absent in one of R1, R2 and present with an empty value in the other; "
+                    "its violation is listed in known_findings.json and printed as KNOWN-FINDING"),
     ]
 SPEC = dict(
     harness="C13_vary.cc", units=_U, unit_flags={"compat/xstring.cc": ["-Dxstrdup=vf_unused_squid_xstrdup"]},
@@ -57,7 +60,7 @@ SPEC = dict(
                  "'match' = same presence, same length, same bytes; each request carries at most one field line per nominated name (Squid's joining of several lines with ', ' is the "
                  "normalisation RFC 9111 4.1 allows and is not exercised)",
                  "X_ACCELERATOR_VARY is off in this build (configure default)",
-                 "KNOWN-FINDING candidate excluded by vf_assume in every family: a nominated registered single-value header field (User-Agent in these families) present with an "
+                 "known finding C13-empty-registered-header (examined only by entry c13_known_empty_registered, excluded from the others by vf_assume): a nominated registered single-value header field (User-Agent in these families) present with an "
                  "empty value in one request and absent from the other -- both get the mark 'user-agent' and varyEvaluateMatch() answers VARY_MATCH (String's copy constructor "
                  "turns the zero-length value returned by HttpHeader::getStrOrList() into an undefined String, which assembleVaryKey() reads as 'absent')"],
     outside="Vary texts, names and values other than the listed families (values longer than the templates, more than two nominated names, names other than Accept-Encoding, User-Agent, X-V); "
